@@ -865,3 +865,59 @@ Proof.
     as (lf & lg & R1 & R2 & P1 & P2 & V1 & V2 & E & S1 & S2 & _ & _ & F).
   exists (g1 ++ junk), lf, lg. repeat (split; [assumption|]). exact F.
 Qed.
+
+(* ---- what was handed out stays what it was: the outputs of a history are values; continuing the history (any further
+        in-range reads and seeks) leaves the outputs of the steps already made exactly as they were when they were
+        handed out, and those are the slices of the records.  (The implementation hands out mutable buffers: the
+        correspondence check keeps every buffer alive until the end of the history and compares it then.) ---- *)
+Lemma prun_fst_cons {S} (step : S -> pop -> S * result (list (list Z))) s op ops :
+  fst (prun step s (op :: ops)) = fst (prun step (fst (step s op)) ops).
+Proof.
+  unfold prun at 1. cbn [fold_left fst snd]. destruct (step s op) as [s1 o]. cbn [app fst snd].
+  rewrite prun_gen. reflexivity.
+Qed.
+
+Lemma prun_app {S} (step : S -> pop -> S * result (list (list Z))) : forall ops1 s ops2,
+  snd (prun step s (ops1 ++ ops2)) = snd (prun step s ops1) ++ snd (prun step (fst (prun step s ops1)) ops2).
+Proof.
+  induction ops1 as [|op ops1 IH]; intros s ops2; [reflexivity|].
+  rewrite <- app_comm_cons, !prun_cons, prun_fst_cons, IH. reflexivity.
+Qed.
+
+Lemma prun_length {S} (step : S -> pop -> S * result (list (list Z))) : forall ops s,
+  length (snd (prun step s ops)) = length ops.
+Proof.
+  induction ops as [|op ops IH]; intros s; [reflexivity|]. rewrite prun_cons. cbn [length]. now rewrite IH.
+Qed.
+
+Lemma prun_prefix {S} (step : S -> pop -> S * result (list (list Z))) ops1 ops2 s :
+  firstn (length ops1) (snd (prun step s (ops1 ++ ops2))) = snd (prun step s ops1).
+Proof.
+  rewrite prun_app. rewrite <- (prun_length step ops1 s) at 1.
+  rewrite firstn_app, Nat.sub_diag, firstn_all. cbn [firstn]. now rewrite app_nil_r.
+Qed.
+
+Lemma ops_ok_prefix : forall ops1 ops2 total c, ops_ok total c (ops1 ++ ops2) = true -> ops_ok total c ops1 = true.
+Proof.
+  induction ops1 as [|op ops1 IH]; intros ops2 total c H; [reflexivity|].
+  rewrite <- app_comm_cons in H. destruct op as [n|i]; cbn [ops_ok] in *.
+  - apply andb_true_iff in H as [H1 H2]. rewrite H1. cbn [andb]. exact (IH _ _ _ H2).
+  - apply andb_true_iff in H as [H1 H2]. rewrite H1. cbn [andb]. exact (IH _ _ _ H2).
+Qed.
+
+Theorem conf_results_persist : forall ap, ap_ok ap -> forall B, conforming B -> forall h vl fmt recs evl f g backends junk,
+  wf_las ap h vl fmt recs evl -> wf_laz ap B h vl fmt recs evl ->
+  file_of ap h vl fmt recs evl = Ok f -> B_file_of ap B h vl fmt recs evl = Ok g -> backends <> [] ->
+  exists rz s0, dec_header (g ++ junk) true = Ok rz /\ B_source B backends true rz (g ++ junk) = Ok s0
+    /\ forall ops1 ops2, ops_ok (len recs) 0 (ops1 ++ ops2) = true ->
+         firstn (length ops1) (snd (prun (B_pstep B) s0 (ops1 ++ ops2))) = snd (prun (B_pstep B) s0 ops1)
+         /\ firstn (length ops1) (snd (prun (B_pstep B) s0 (ops1 ++ ops2))) = snd (prun (spec_pstep recs) 0 ops1).
+Proof.
+  intros ap Hap B HB h vl fmt recs evl f g backends junk Wl Wz Hf Hg Hb.
+  destruct (conf_transparent_cursor ap Hap B HB h vl fmt recs evl f g backends junk Wl Wz Hf Hg Hb)
+    as (rs & rz & s0 & _ & Hz & Hs & Hops).
+  exists rz, s0. split; [exact Hz|]. split; [exact Hs|]. intros ops1 ops2 Hok.
+  rewrite prun_prefix. split; [reflexivity|].
+  exact (proj2 (Hops ops1 (ops_ok_prefix ops1 ops2 _ _ Hok))).
+Qed.
+Print Assumptions conf_results_persist.
